@@ -59,6 +59,7 @@ def gen_cases(rng, tier):
         cases.append(("cs_px", [cs, rng.randrange(29), int(rng.random() < 0.5)] + list(col) + [n] + dst))
     # gradients with translucent stops (the Premultiply stage is chosen from a cached 'all stops opaque' flag)
     cases += [c for c in _c15.gen_cases(rng, tier) if c[0] == "grad_px"][:500 if tier == "quick" else 6000]
+    cases += _c15.micro_interval_cases(rng, 40 if tier == "quick" else 500)
     return cases
 
 
